@@ -6,8 +6,11 @@
 //!    `run_tests` (counter state, loop source, loop body, final decision);
 //!  * src/pipeline.rs: `Package<NoCtx>::run_tests`, `Package<Ctx<C>>::run_tests`, `Package::get_tests`,
 //!    `Package::get_function`;
-//!  * src/codegen/mod.rs: `Module::get_function` — the key it looks a name up under
-//!    (`format!("pkg.{name}")` ↦ concatenation) and the shape of the look-up;
+//!  * src/codegen/mod.rs: `Module::get_function`, statement by statement — the key it looks a
+//!    name up under (`format!("pkg.{name}")` ↦ concatenation), the one look-up, every exit
+//!    with its error, the order of the parameter / return-type checks;
+//!  * private helper functions (free `fn`s of the same file called by plain name) of
+//!    `get_tests` and `cli_inner`, each as a generated `@[simp]` definition;
 //!  * src/cli.rs: `enum Command`, every arm of `cli_inner`, `cli`;
 //!  * src/typechecker/function.rs `test` and src/mir/lower.rs `test`: the
 //!    `format!("test#…")` name and the signature a test gets.
@@ -26,7 +29,9 @@
 //!  * `e?` ↦ `(← try_ e)`, `return Err(x)` ↦ `throw x` (in the CLI monad);
 //!  * string literals ↦ lists of characters; `rsplit_once("<c>")` ↦
 //!    `rsplit_once_char _ '<c>'`;
-//!  * `get_function::<T>(n)` ↦ `get_function sigOf(T) n`.
+//!  * `get_function::<T>(n)` ↦ `get_function sigOf(T) n`;
+//!  * `.cloned()`/`.copied()` on an iterator ↦ the iterator, `sort_unstable()` on strings ↦ `sort`,
+//!    `is_ok()/is_err()`; `match` / `if let` over the counter updates of the loop body.
 //! Anything else is an extraction failure.
 
 #[allow(unused_imports)]
@@ -331,6 +336,12 @@ fn base_cx() -> Cx {
         cx.methods.insert(m.into(), Meth::Pure(f.into()));
     }
     cx.methods.insert("iter".into(), Meth::Pure("RIter.into_iter".into()));
+    // `.cloned()` / `.copied()` on an iterator over references: the same elements
+    // (`.map(Clone::clone)` is `RIter.map _ id`)
+    cx.methods.insert("cloned".into(), Meth::Identity);
+    cx.methods.insert("copied".into(), Meth::Identity);
+    cx.methods.insert("is_ok".into(), Meth::Pure("RResult_is_ok".into()));
+    cx.methods.insert("is_err".into(), Meth::Pure("RResult_is_err".into()));
     cx.methods.insert("get_context".into(), Meth::Identity);
     cx.methods
         .insert("unwrap".into(), Meth::Fallible("RUnwrap.unwrap".into()));
@@ -343,6 +354,95 @@ fn base_cx() -> Cx {
     cx.fallible_fns
         .insert("run_tests".into(), ("run_tests".into(), true));
     cx
+}
+
+// ------------------------------------------------------- private helper functions
+
+/// Plain-name calls `h(…)` inside an expression / block.
+struct PlainCalls(Vec<String>);
+impl<'ast> Visit<'ast> for PlainCalls {
+    fn visit_expr_call(&mut self, c: &'ast syn::ExprCall) {
+        if let Expr::Path(p) = &*c.func {
+            if let Some(id) = p.path.get_ident() {
+                let n = id.to_string();
+                if !self.0.contains(&n) {
+                    self.0.push(n);
+                }
+            }
+        }
+        syn::visit::visit_expr_call(self, c);
+    }
+}
+
+fn helper_ty(t: &syn::Type) -> R {
+    let s = t.to_token_stream().to_string().replace(' ', "");
+    Ok(match s.as_str() {
+        "&str" | "&String" | "String" | "&'staticstr" => "Name".into(),
+        "bool" => "Bool".into(),
+        "RotoReport" => "CliErr".into(),
+        other => return Err(format!("helper function: type {other} is not in the vocabulary")),
+    })
+}
+
+/// Private helper functions.  A call `h(a, …)` by plain name to a free `fn h` of the SAME
+/// file, which the vocabulary does not know, gets its meaning from the definition of `h`
+/// itself: `h` is translated (same conventions as its caller) into a pure Lean definition,
+/// emitted before the caller and marked `@[simp]` so that the proofs see through it.  The
+/// parameter and return types must be in the small vocabulary of `helper_ty`, the body in the
+/// r2l subset and pure (it is elaborated in `Id`: a fallible operation does not type-check,
+/// which breaks the build — never a silent default).  Helpers of helpers are not followed
+/// (an unknown identifier breaks the Lean build).
+fn helper_defs(file: &syn::File, rel: &str, root: &syn::Block, cx: &Cx, done: &mut Vec<String>) -> R {
+    let mut pc = PlainCalls(vec![]);
+    pc.visit_block(root);
+    let mut out = String::new();
+    for name in pc.0 {
+        if done.contains(&name)
+            || cx.paths.contains_key(&name)
+            || cx.fallible_fns.contains_key(&name)
+            || cx.call_rewrites.contains_key(&name)
+        {
+            continue;
+        }
+        let fns: Vec<&syn::ItemFn> = file
+            .items
+            .iter()
+            .filter_map(|i| match i {
+                syn::Item::Fn(f) if f.sig.ident == name => Some(f),
+                _ => None,
+            })
+            .collect();
+        let [f] = fns.as_slice() else { continue };
+        if !f.sig.generics.params.is_empty() || f.sig.asyncness.is_some() || f.sig.unsafety.is_some() {
+            return Err(format!("helper function {name}: generic / async / unsafe"));
+        }
+        let mut params = String::new();
+        for a in &f.sig.inputs {
+            let syn::FnArg::Typed(t) = a else {
+                return Err(format!("helper function {name}: receiver"));
+            };
+            let Pat::Ident(pi) = &*t.pat else {
+                return Err(format!("helper function {name}: parameter pattern"));
+            };
+            if pi.mutability.is_some() {
+                return Err(format!("helper function {name}: `mut` parameter"));
+            }
+            params.push_str(&format!(" ({} : {})", crate::r2l::lean_ident(&pi.ident.to_string()), helper_ty(&t.ty)?));
+        }
+        let ret = match &f.sig.output {
+            syn::ReturnType::Type(_, t) => helper_ty(t)?,
+            syn::ReturnType::Default => return Err(format!("helper function {name}: no return type")),
+        };
+        let mut block = (*f.block).clone();
+        rewrite(&mut block)?;
+        let body = cx.m(&Expr::Block(syn::ExprBlock { attrs: vec![], label: None, block }))?;
+        out.push_str(&format!(
+            "/-- private helper `{name}` ({rel}), called by the code below -/\n@[simp] def {}{params} : {ret} := Id.run\n {body}\n\n",
+            crate::r2l::lean_ident(&name)
+        ));
+        done.push(name);
+    }
+    Ok(out)
 }
 
 // ------------------------------------------------------------ TestCase::run
@@ -364,6 +464,7 @@ fn get_tests(testing: &syn::File) -> R {
     rewrite(&mut f.block)?;
     let mut out = String::new();
     let mut cx = base_cx();
+    out.push_str(&helper_defs(testing, "src/codegen/testing.rs", &f.block, &cx, &mut vec![])?);
 
     // the `.filter(|x| …)` closure becomes a named predicate
     struct FilterFinder(Vec<syn::ExprClosure>);
@@ -424,7 +525,9 @@ fn get_tests(testing: &syn::File) -> R {
                 lines.push(format!(" let {} := {v}", pi.ident));
             }
             Stmt::Expr(Expr::MethodCall(mc), Some(_))
-                if mc.method == "sort" && mc.args.is_empty() =>
+                // `sort_unstable` on strings: the order is total and equal keys are equal strings,
+                // so stability cannot be observed
+                if (mc.method == "sort" || mc.method == "sort_unstable") && mc.args.is_empty() =>
             {
                 let Expr::Path(p) = &*mc.receiver else {
                     return Err("get_tests: sort on a non-variable".into());
@@ -579,6 +682,39 @@ fn state_stmts(cx: &Cx, stmts: &[Stmt], counters: &[String]) -> R {
                 },
             };
             format!("(do\n let st__ ← (do\n if {c} then {then}\n else {els})\n {rest_s})")
+        }
+        // `if let P = E { … } else { … }` / `match E { P => { … } … }` over counter updates
+        Stmt::Expr(Expr::If(i), _) => {
+            let Expr::Let(l) = &*i.cond else { unreachable!() };
+            let scrut = cx.v(&l.expr)?;
+            let pat = cx.pat(&l.pat)?;
+            let then = state_stmts(cx, &i.then_branch.stmts, counters)?;
+            let els = match &i.else_branch {
+                None => "(pure st__)".to_string(),
+                Some((_, e)) => match &**e {
+                    Expr::Block(b) => state_stmts(cx, &b.block.stmts, counters)?,
+                    other @ Expr::If(_) => {
+                        state_stmts(cx, &[Stmt::Expr(other.clone(), None)], counters)?
+                    }
+                    _ => return Err("loop body: unsupported else".into()),
+                },
+            };
+            format!("(do\n let st__ ← (do match {scrut} with\n | {pat} => {then}\n | _ => {els})\n {rest_s})")
+        }
+        Stmt::Expr(Expr::Match(mm), _) => {
+            if mm.arms.iter().any(|a| a.guard.is_some()) {
+                return Err("loop body: guarded match arm".into());
+            }
+            let scrut = cx.v(&mm.expr)?;
+            let mut arms = String::new();
+            for a in &mm.arms {
+                let body = match &*a.body {
+                    Expr::Block(b) => state_stmts(cx, &b.block.stmts, counters)?,
+                    other => state_stmts(cx, &[Stmt::Expr(other.clone(), Some(Default::default()))], counters)?,
+                };
+                arms.push_str(&format!("\n | {} => {body}", cx.pat(&a.pat)?));
+            }
+            format!("(do\n let st__ ← (do match {scrut} with{arms})\n {rest_s})")
         }
         other => {
             return Err(format!(
@@ -790,6 +926,7 @@ fn cli_fns(cli: &syn::File) -> R {
         }
         _ => return Err("cli_inner: the function does not end in `Ok(())`".into()),
     }
+    out.push_str(&helper_defs(cli, "src/cli.rs", &f.block, &cx, &mut vec![])?);
     let body = cx.block(&f.block.stmts)?;
     out.push_str(&format!(
         "/-- `cli_inner` (src/cli.rs); `Result<(), RotoReport>` is the error channel of `Cli` -/\ndef cli_inner (dbg : Bool) (W : World) (cli_args : CliArgs) (rt : Runtime) : Cli Unit :=\n {body}\n\n"
@@ -1090,7 +1227,124 @@ fn module_get_function(repo: &Path) -> R {
     let mut out = format!(
         "/-- the key `Module::get_function(name)` looks up in `Module.functions` (src/codegen/mod.rs: the first `let name = …;`) -/\ndef get_function_key (name : Name) : Name := Id.run\n {key}\n\n"
     );
-    out.push_str("/-- `Module::get_function::<F>(name)` (src/codegen/mod.rs): one look-up of the generated key, then the signature check; the handle is the looked-up entry's function (structure checked by the translator) -/\ndef Module_get_function (self : Module) (want : Sig) (name : Name) : RResult TypedFunc FnErr :=\n get_function_at self.functions want (get_function_key name)\n\n");
+    // ---- the exits of the function, in source order (statement by statement; anything that is
+    // not one of these forms is an extraction failure):
+    //   look-up   `let function_info = self.functions.get(&name).ok_or_else(|| FunctionRetrievalError::V {…})?;`
+    //   no-sig    `let Some(sig) = &sig else { return Err(FunctionRetrievalError::V {…}) };`
+    //   params    `F::check_args(…, &sig.parameter_types)?;`
+    //   return    `check_roto_type_reflect::<F::Return>(…, &sig.return_type).map_err(|e| FunctionRetrievalError::V(…))?;`
+    //   plain `let x = <expr without `?`/`return`>;`        (sig, id, func_ptr)
+    //   done      tail `Ok(TypedFunc {…})`
+    fn ts(t: &impl ToTokens) -> String {
+        t.to_token_stream().to_string().replace(' ', "")
+    }
+    fn variant_in(tokens: &str) -> Result<&'static str, String> {
+        let vs: Vec<&str> = tokens.match_indices("FunctionRetrievalError::").map(|(i, m)| &tokens[i + m.len()..]).collect();
+        match vs.as_slice() {
+            [v] if v.starts_with("DoesNotExist") => Ok("FnErr.doesNotExist"),
+            [v] if v.starts_with("TypeMismatch") => Ok("FnErr.typeMismatch"),
+            _ => Err(format!("Module::get_function: cannot tell which FunctionRetrievalError is built in `{tokens}`")),
+        }
+    }
+    struct Exits(usize, usize);
+    impl<'ast> Visit<'ast> for Exits {
+        fn visit_expr_try(&mut self, t: &'ast syn::ExprTry) {
+            self.0 += 1;
+            syn::visit::visit_expr_try(self, t);
+        }
+        fn visit_expr_return(&mut self, r: &'ast syn::ExprReturn) {
+            self.1 += 1;
+            syn::visit::visit_expr_return(self, r);
+        }
+    }
+    let mut ex = Exits(0, 0);
+    ex.visit_block(&f.block);
+    if (ex.0, ex.1) != (3, 1) {
+        return Err(format!("Module::get_function: expected three `?` and one `return` (found {} and {})", ex.0, ex.1));
+    }
+    let mut missing = None; // error of the failed look-up
+    let mut nosig = None;
+    let mut checks: Vec<(&str, &str)> = vec![]; // (which part of the signature, error) in source order
+    let mut done = false;
+    for (i, st) in stmts.iter().enumerate() {
+        if done {
+            return Err("Module::get_function: statement after the final `Ok(TypedFunc {…})`".into());
+        }
+        match st {
+            Stmt::Local(l) if i == names[0].0 => {
+                let _ = l;
+            }
+            Stmt::Local(l) => {
+                let pat = ts(&l.pat);
+                let init = l.init.as_ref().ok_or("Module::get_function: let without initialiser")?;
+                let e = ts(&init.expr);
+                if let Some((_, els)) = &init.diverge {
+                    let body = ts(els);
+                    if pat != "Some(sig)" || e != "&sig" || !body.starts_with("{returnErr(FunctionRetrievalError::") {
+                        return Err(format!("Module::get_function: unsupported let-else `{pat} = {e}`"));
+                    }
+                    if missing.is_none() || !checks.is_empty() {
+                        return Err("Module::get_function: the `signature` test is not between the look-up and the type checks".into());
+                    }
+                    nosig = Some(variant_in(&body)?);
+                } else if pat == "function_info" {
+                    if !e.starts_with("self.functions.get(&name).ok_or_else(||") || !e.ends_with("?") || missing.is_some() {
+                        return Err(format!("Module::get_function: unsupported look-up `{e}`"));
+                    }
+                    missing = Some(variant_in(&e)?);
+                } else {
+                    let mut x = Exits(0, 0);
+                    x.visit_expr(&init.expr);
+                    let ok = match pat.as_str() {
+                        "sig" => e == "&function_info.signature",
+                        "id" => e == "function_info.id",
+                        _ => (x.0, x.1) == (0, 0) && !e.contains("self.functions"),
+                    };
+                    if !ok {
+                        return Err(format!("Module::get_function: unsupported `let {pat} = {e}`"));
+                    }
+                }
+            }
+            Stmt::Expr(Expr::Try(t), Some(_)) => {
+                let e = ts(&t.expr);
+                if nosig.is_none() {
+                    return Err("Module::get_function: a type check before the `signature` test".into());
+                }
+                if e.starts_with("F::check_args(") && e.ends_with(",&sig.parameter_types)") {
+                    // the error is built inside `check_args` (src/runtime): a `TypeMismatch` (hand)
+                    checks.push(("params", "FnErr.typeMismatch"));
+                } else if e.starts_with("check_roto_type_reflect::<F::Return>(") && e.contains(",&sig.return_type,).map_err(|e|") || e.contains(",&sig.return_type).map_err(|e|") && e.starts_with("check_roto_type_reflect::<F::Return>(") {
+                    let clo = &e[e.find(".map_err(").unwrap()..];
+                    checks.push(("ret", variant_in(clo)?));
+                } else {
+                    return Err(format!("Module::get_function: unsupported `?` statement `{e}`"));
+                }
+            }
+            Stmt::Expr(e, None) if i + 1 == stmts.len() => {
+                if !ts(e).starts_with("Ok(TypedFunc{func:func_ptr,") {
+                    return Err(format!("Module::get_function: the tail is not `Ok(TypedFunc {{ func: func_ptr, … }})`: {}", ts(e)));
+                }
+                done = true;
+            }
+            other => {
+                return Err(format!("Module::get_function: unsupported statement: {}", ts(other)));
+            }
+        }
+    }
+    let missing = missing.ok_or("Module::get_function: no look-up statement")?;
+    let nosig = nosig.ok_or("Module::get_function: no `let Some(sig) = &sig else …`")?;
+    let mut kinds: Vec<&str> = checks.iter().map(|c| c.0).collect();
+    kinds.sort();
+    if !done || kinds != ["params", "ret"] {
+        return Err(format!("Module::get_function: expected one parameter check and one return-type check (found {kinds:?})"));
+    }
+    let mut body = String::from("(RResult.Ok ⟨get_function_key name, info⟩)");
+    for (what, err) in checks.iter().rev() {
+        body = format!("(if info.sig.{what} = want.{what} then {body} else RResult.Err {err})");
+    }
+    out.push_str(&format!(
+        "/-- `Module::get_function::<F>(name)` (src/codegen/mod.rs).  GENERATED statement by statement: ONE look-up of the generated key (`None` ↦ the error of the `ok_or_else` closure); `signature: None` (compiler-generated glue; such entries are not in the model's table) ↦ `{nosig}`; then the checks of the parameter types and of the return type in source order, each with the error its `?` propagates (the one of `check_args` is built inside that function: hand); the handle is the looked-up entry's function (`get_finalized_function(function_info.id)`, shape-checked) -/\ndef Module_get_function (self : Module) (want : Sig) (name : Name) : RResult TypedFunc FnErr :=\n match Table.find self.functions (get_function_key name) with\n | none => RResult.Err {missing}\n | some info => {body}\n\n"
+    ));
     Ok(out)
 }
 
